@@ -9,7 +9,12 @@ open CaddyModel.C18
 #print axioms substituted_only_if_known_or_emptied
 #print axioms unknown_never_substituted_when_kept
 #print axioms cost_linear
-#print axioms cost_linear_all_modes_full_fails
+#print axioms cost_linear_old_code_fails
+#print axioms close_cache_is_transparent
+#print axioms findClose_at_iff
+#print axioms findClose_mono
+#print axioms loop_eq_loopNC
+#print axioms old_cost_twin_follows_old_loop
 #print axioms vars_regexp_sees_value_verbatim
 #print axioms vars_matcher_compares_verbatim
 #print axioms vars_regexp_old_code_rescans
